@@ -10,7 +10,7 @@ SPEC = {
         # cases = layer-1 monitor scripts; rt = layer-2 real-Runtime cases (each: undebugged run, trace
         # run, StepIn-only run(s), rt_runs scripted runs)
         "quick": {"cases": 1500, "extra": {"ops": 60, "rt": 40, "rt_runs": 3, "jobs": 4}},
-        "thorough": {"cases": 60000,
+        "thorough": {"cases": 40000,
                      "extra": {"ops": 80, "rt": 1200, "rt_runs": 4, "rt_all_threads": 1, "jobs": 6}},
     },
     # The compared observables are what the property speaks about (stop notifications with reason,
